@@ -334,6 +334,7 @@ func xeParseTarget(b []byte) (*etree.Element, error) {
 func xeNamespaceOK(e *etree.Element) error {
 	want := map[string]string{
 		"EncryptedData": nsXenc, "EncryptedKey": nsXenc, "EncryptionMethod": nsXenc, "CipherData": nsXenc, "CipherValue": nsXenc,
+		"KeySize": nsXenc, "OAEPparams": nsXenc,
 		"KeyInfo": nsDsig, "DigestMethod": nsDsig, "X509Data": nsDsig, "X509Certificate": nsDsig, "X509IssuerSerial": nsDsig,
 		"X509IssuerName": nsDsig, "X509SerialNumber": nsDsig, "X509SubjectName": nsDsig, "X509SKI": nsDsig,
 		"MGF": nsXenc11,
